@@ -426,6 +426,9 @@ func init() {
 		al, st := c01AccessLog(run), c01Statuses(run)
 		evals += al + st
 		nontriv += al + st
+		bu := c01Burst(run)
+		evals += bu
+		nontriv += bu
 		fmt.Printf("  C01 component cluster: cases=%d non-trivial=%d\n", evals, nontriv)
 		sizes := []int{3}
 		if run.Thorough() {
